@@ -251,7 +251,19 @@ func (t *tattach) handle(cs *connState) message {
 	if err != nil {
 		return newErr(err)
 	}
-	qid, valid, attr, err := sf.GetAttr(AttrMaskAll)
+	// GetAttr has a read concurrency guarantee on the root node.
+	var (
+		qid   QID
+		valid AttrMask
+		attr  Attr
+	)
+	func() {
+		cs.server.renameMu.RLock()
+		defer cs.server.renameMu.RUnlock()
+		cs.server.pathTree.opMu.RLock()
+		defer cs.server.pathTree.opMu.RUnlock()
+		qid, valid, attr, err = sf.GetAttr(AttrMaskAll)
+	}()
 	if err != nil {
 		sf.Close() // Drop file.
 		return newErr(err)
@@ -1138,7 +1150,12 @@ func (t *tlock) handle(cs *connState) message {
 // walkOne walks zero or one path elements.
 //
 // The slice passed as qids is append and returned.
-func walkOne(qids []QID, from File, names []string, getattr bool) ([]QID, File, AttrMask, Attr, error) {
+//
+// lockTarget, if non-nil, is called before GetAttr is invoked on the walked-to
+// file and must read-lock that file's path node, returning the unlock
+// function: GetAttr has a read concurrency guarantee on the node it is called
+// on, which is not the node of from.
+func walkOne(qids []QID, from File, names []string, getattr bool, lockTarget func() (unlock func())) ([]QID, File, AttrMask, Attr, error) {
 	nwname := len(names)
 	if nwname > 1 {
 		// We require exactly zero or one elements.
@@ -1166,7 +1183,14 @@ func walkOne(qids []QID, from File, names []string, getattr bool) ([]QID, File, 
 			break
 		}
 		if getattr {
-			_, valid, attr, err = sf.GetAttr(AttrMaskAll)
+			func() {
+				if lockTarget != nil {
+					// Deferred, so that the lock is released
+					// even if GetAttr panics.
+					defer lockTarget()()
+				}
+				_, valid, attr, err = sf.GetAttr(AttrMaskAll)
+			}()
 			if err != nil {
 				// Don't leak the file.
 				sf.Close()
@@ -1206,7 +1230,7 @@ func doWalk(cs *connState, ref *fidRef, names []string, getattr bool) (qids []QI
 		// ref.file must be exclusive of write operations on this node.
 		if err := ref.safelyRead(func() (err error) {
 			// Clone the single element.
-			qids, sf, valid, attr, err = walkOne(nil, ref.file, nil, getattr)
+			qids, sf, valid, attr, err = walkOne(nil, ref.file, nil, getattr, nil)
 			if err != nil {
 				return err
 			}
@@ -1260,7 +1284,13 @@ func doWalk(cs *connState, ref *fidRef, names []string, getattr bool) (qids []QI
 
 			// Pass getattr = true to walkOne since we need the file type for
 			// newRef.
-			qids, sf, valid, attr, err = walkOne(qids, walkRef.file, names[i:i+1], true)
+			qids, sf, valid, attr, err = walkOne(qids, walkRef.file, names[i:i+1], true, func() func() {
+				// Deeper in the hierarchy than walkRef.pathNode, which
+				// is the permitted lock order (see tunlinkat).
+				pn := walkRef.pathNode.pathNodeFor(names[i])
+				pn.opMu.RLock()
+				return pn.opMu.RUnlock
+			})
 			if err != nil {
 				return err
 			}
